@@ -329,6 +329,9 @@ type caseID struct {
 	// Mem: the source is materialised with eval() before the stages (finite sources without a failing
 	// source element only); the source closure then runs for every element, the stages stay lazy
 	Mem bool `json:"mem"`
+	// Twice: the pipeline is bound to a local and the consumer runs on it twice in one evaluation; a lazy
+	// list starts again from its source each time, so the second run must demand what the first did
+	Twice bool `json:"twice"`
 }
 
 func (c caseID) repro(src string, v int64) map[string]any {
@@ -336,7 +339,7 @@ func (c caseID) repro(src string, v int64) map[string]any {
 	if c.Infinite {
 		n = hugeN
 	}
-	return map[string]any{"part": "pipeline", "src": src, "n": n, "v": v, "k": c.K, "stages": c.Stages, "consumer": c.Cons, "miss": c.Miss, "mem": c.Mem,
+	return map[string]any{"part": "pipeline", "src": src, "n": n, "v": v, "k": c.K, "stages": c.Stages, "consumer": c.Cons, "miss": c.Miss, "mem": c.Mem, "twice": c.Twice,
 		"infinite": c.Infinite, "failStage": c.FailStage, "failCall": c.FailCall}
 }
 
@@ -374,7 +377,7 @@ type verdict struct {
 func (h *harness) checkCase(stDefs []*stageDef, cdefs []*consDef, c caseID) (vs []verdict, o obs, a *analysis, src string, v int64, skipped string) {
 	stages := findStages(stDefs, c.Stages)
 	cons := findCons(cdefs, c.Cons)
-	src = cons.tmpl(pipelineSrcMem(stages, c.Mem))
+	src = caseSrc(stages, cons, c)
 	// the value searched for: the element at position k of the consumer's input (or a value that is absent)
 	pre := analyse(stages, cons, c.K, 0, c.N, c.Infinite)
 	v = missValue
@@ -392,6 +395,16 @@ func (h *harness) checkCase(stDefs []*stageDef, cdefs []*consDef, c caseID) (vs 
 	if c.Mem {
 		// eval() runs the source closure once per element, whatever is demanded behind it
 		a.callsLo[0], a.callsHi[0] = c.N, c.N
+	}
+	if c.Twice && a.res.err == "" {
+		for i := range a.callsLo {
+			if a.callsLo[i] != unbounded {
+				a.callsLo[i] *= 2
+			}
+			if a.callsHi[i] != unbounded {
+				a.callsHi[i] *= 2
+			}
+		}
 	}
 	fail := failSpec{c.FailStage, c.FailCall}
 	n, j := int64(c.N), int64(-1)
@@ -418,6 +431,15 @@ func (h *harness) checkCase(stDefs []*stageDef, cdefs []*consDef, c caseID) (vs 
 	}
 	vs = compare(stages, cons, a, fail, o)
 	return vs, o, a, src, v, ""
+}
+
+// caseSrc is the program of a case.
+func caseSrc(stages []*stageDef, cons *consDef, c caseID) string {
+	p := pipelineSrcMem(stages, c.Mem)
+	if c.Twice {
+		return "let l=" + p + "; let a=" + cons.tmpl("l") + "; let b=" + cons.tmpl("l") + "; if a=b then a else \"the second run of the consumer gives another result\""
+	}
+	return cons.tmpl(p)
 }
 
 func boundText(lo, hi int) string {
@@ -552,6 +574,20 @@ func runPlain(ctx *bex.Ctx) {
 	})
 	ctx.SpaceDone(fmt.Sprintf("source numbers(n).map(counting closure) -> every sequence of <= %d stages out of %d stage variants -> 9 consumers; decisive position k in 0..6 (+ absent value); n in {0,1,2,5,k+5,24,10^11}, the finite sources also materialised with eval() before the stages; failing call at every position 0..needed+3 of the source and of every stage closure and of the consumer predicate, or nowhere", maxStages, len(stDefs)))
 
+	// (1b) the same pipelines consumed twice in one evaluation
+	ctx.Space("consumed-twice")
+	idx = 0
+	forEachPipeline(stDefs, maxStages, func(stages []*stageDef) {
+		for _, cons := range cdefs {
+			idx++
+			if !ctx.Mine(idx) || ctx.Expired() {
+				continue
+			}
+			h.twiceCases(ctx, stDefs, cdefs, stages, cons)
+		}
+	})
+	ctx.SpaceDone(fmt.Sprintf("`let l=<pipeline>; let a=<consumer on l>; let b=<consumer on l>; if a=b then a else ..`: every sequence of <= %d stages x consumers x k in 0..6 (+ absent value) x n in {0,1,2,5,k+5,24,10^11}, no failing element: the result of one run, every closure exactly within twice the bounds of one run", maxStages))
+
 	// (2) pipelines that are built but not consumed
 	ctx.Space("unconsumed")
 	idx = 0
@@ -637,6 +673,70 @@ func (h *harness) pipelineCases(ctx *bex.Ctx, stDefs []*stageDef, cdefs []*consD
 			}
 		}
 	}
+}
+
+// twiceCases: the clean cases of pipelineCases with the consumer running twice on the same lazy list.
+func (h *harness) twiceCases(ctx *bex.Ctx, stDefs []*stageDef, cdefs []*consDef, stages []*stageDef, cons *consDef) {
+	ks := []int{0}
+	if cons.usesK || cons.usesV {
+		ks = []int{0, 1, 2, 3, 4, 5, 6}
+	}
+	names := stageNames(stages)
+	for ki := 0; ki <= len(ks); ki++ {
+		k, miss := 0, false
+		if ki == len(ks) {
+			if !cons.usesV {
+				continue
+			}
+			miss = true
+		} else {
+			k = ks[ki]
+		}
+		for _, n := range append(finiteLengths(k), -1) {
+			c := caseID{Stages: names, Cons: cons.name, K: k, Miss: miss, N: n, FailStage: -1, FailCall: -1, Twice: true}
+			if n < 0 {
+				c.N, c.Infinite = 0, true
+			}
+			if _, _, _, _, _, skipped := h.probeModel(stDefs, cdefs, c); skipped != "" {
+				continue
+			}
+			if ctx.Expired() {
+				return
+			}
+			if !ctx.Begin(func() map[string]any { return c.repro(caseSrc(stages, cons, c), 0) }) {
+				continue
+			}
+			vs, o, a, src, v, _ := h.checkCase(stDefs, cdefs, c)
+			ctx.Eval()
+			if a.callsLo[0] > 0 && (c.Infinite || a.callsLo[0] < 2*c.N) {
+				ctx.Nontrivial(fmt.Sprintf("twice|%s|%d|%d|%v|%v", src, c.K, c.N, c.Infinite, c.Miss))
+			}
+			ctx.Outcome(fmt.Sprintf("twice/source-calls-per-needed-element=%s", ratioText(int(o.ticks[0]), a.callsLo[0])))
+			for _, vd := range vs {
+				if vd.unspecified != "" {
+					ctx.Unspecified(vd.unspecified)
+					continue
+				}
+				fid := classify(stages, cons, a, c, o, vd)
+				if fid != "" {
+					ctx.Add("cases_"+fid, 1)
+				}
+				ctx.Violate(vd.what, c.repro(src, v), vd.expected, vd.got, fid)
+			}
+		}
+	}
+}
+
+func ratioText(got, need int) string {
+	switch {
+	case need == 0 || need == unbounded:
+		return "n/a"
+	case got == need:
+		return "exact"
+	case got < need:
+		return "fewer"
+	}
+	return "read-ahead"
 }
 
 // probeModel computes the model of a case without executing it.
@@ -1004,6 +1104,7 @@ func replay(repro map[string]any) (string, bool) {
 			c.N = int(repro["n"].(float64))
 		}
 		c.Mem, _ = repro["mem"].(bool)
+		c.Twice, _ = repro["twice"].(bool)
 		h := newHarness()
 		vs, o, a, src, v, skipped := h.checkCase(stageDefs(), consDefs(), c)
 		if skipped != "" {
